@@ -113,8 +113,8 @@ func (g *Gen) lemmas(id string) {
 func (g *Gen) trustedBase() []string {
 	return []string{
 		"govc itself: translation of the Go subset to SMT (symbolic execution of the typed AST, slice/heap/map model)",
-		"SMT solvers z3 5.1.0, cvc5 1.0.3 (z3 4.8.12 excluded: spurious unsat, DESIGN E12)",
-		"Go int in index/length arithmetic is mathematical; the bridges i2bv64/bv2i64 are mutually inverse (no 64-bit overflow of lengths and offsets)",
+		"SMT solvers z3 4.8.12, z3 5.1.0, cvc5 1.0.3",
+		"A-INT: Go int in index/length arithmetic is mathematical; the bridges i2bv64/bv2i64 are mutually inverse (no 64-bit overflow of lengths and offsets); such a bijection has no model, only no short refutation (DESIGN 11.6 E12)",
 		"float64 is IEEE-754 binary64 with round-to-nearest-even; out-of-range float->integer conversion is unspecified (uninterpreted)",
 		"pointer receivers are non-nil",
 		"contracts of callees are used in place of their bodies (modular); callees tagged 'inline' are executed in place",
